@@ -55,7 +55,7 @@ def main():
     c.cov["tlc_behaviours"] = len(behaviours)
 
     cases, _ = we.export_cases(1, tier=c.tier)
-    m = 7 if thorough else 80
+    m = 24 if thorough else 80            # (m = 7 made the thorough tier run for more than an hour; sized to about 15 minutes)
     cases2, _ = we.export_cases(2, mod=m, rem=(c.seed + 5) % m, tier=c.tier)
     types = [x for x in we.group_types(cases + cases2) if shape_varying(x[0]) and not we.cpp_unbuildable(x[0])
              and len(x[1]) >= 2 and sum(1 for q in x[1] if q["jsonable"]) >= 2]
@@ -86,7 +86,7 @@ def main():
     if len(good) < max(1, len(pkgs) * 3 // 4):
         raise Inconclusive("too many unusable packages")
 
-    per_pkg = len(behaviours) if thorough else 40
+    per_pkg = min(len(behaviours), 160) if thorough else 40
     partitions = sorted(set(tuple(b["partition"]) for b in behaviours))
 
     def script_for(b, nsteps):
@@ -100,7 +100,7 @@ def main():
     def work(p):
         out = []
         rng = random.Random(c.seed * 7919 + p.idx)
-        bs = behaviours if thorough else rng.sample(behaviours, per_pkg)
+        bs = behaviours if per_pkg >= len(behaviours) else rng.sample(behaviours, per_pkg)
         wd = os.path.join(p.root, "io")
         os.makedirs(wd, exist_ok=True)
         for bi, b in enumerate(bs):
